@@ -56,7 +56,7 @@ def shape_strategy(max_turns):
     turns = st.integers(1, max_turns)
     return st.one_of(
         st.fixed_dictionaries({"shape": st.just("arc"), "r": rad, "a0": ang, "sweep": sweep,
-                               "dz": dz, "zgiven": st.booleans(), "full": st.sampled_from([False, False, True])}),
+                               "dz": dz, "zgiven": st.booleans(), "full": st.sampled_from([False, False, True, "nominal"])}),
         st.fixed_dictionaries({"shape": st.just("arc_radius"), "dx": nz, "dy": off,
                                "rf": st.floats(min_value=1.05, max_value=4.0),
                                "neg": st.booleans(), "dz": dz, "zgiven": st.booleans()}),
@@ -66,7 +66,7 @@ def shape_strategy(max_turns):
                                "zgiven": st.booleans()}),
         st.fixed_dictionaries({"shape": st.just("helix"), "r": rad, "a0": ang, "r1": rad,
                                "sweep": sweep, "turns": turns, "dz": dz,
-                               "zgiven": st.booleans(), "full": st.sampled_from([False, False, True])}),
+                               "zgiven": st.booleans(), "full": st.sampled_from([False, False, True, "nominal"])}),
         st.fixed_dictionaries({"shape": st.just("thread"), "dx": nz, "dy": off,
                                "dz": st.floats(min_value=-12, max_value=12),
                                "pitch": st.floats(min_value=0.5, max_value=8.0)}),
